@@ -81,6 +81,10 @@ func makeParams(world int) *chaincfg.Params {
 		}
 		p.Deployments[i] = d
 	}
+	if world == 1 {
+		// like mainnet: UpdateBlockTime must not touch the difficulty bits
+		p.ReduceMinDifficulty = false
+	}
 	return &p
 }
 
